@@ -116,9 +116,9 @@ def generate_argparse_parser(
         elif field.storage_type is bool:
             off_arg = "--no-" + name.replace(".", "-").replace("_", "-").lower()
             parser.add_argument(
-                arg, dest=name, action="store_true", help=field.short_help
+                arg, dest=name, action="store_true", help=field.short_help, default=None
             )
-            parser.add_argument(off_arg, dest=name, action="store_false")
+            parser.add_argument(off_arg, dest=name, action="store_false", default=None)
 
     return parser
 
